@@ -87,3 +87,23 @@ def count(name, lines, ib, stats, meta):
                     stats['distinct'].add(('hello', tuple(t for t, _ in h['props'])))
                     if len(stats['samples']) < 3: stats['samples'].append({'hello_len': len(o), 'property_types': [t for t, _ in h['props']]})
 EXPLORE = dict(ops=('frame',), mtu=True, skip='~')
+
+def extra_checks(tier, seed):
+    """the same scenarios once more under MemorySanitizer: port memory is left uninitialised, every byte handed to the wire is tested
+    (catches what the twin-junk comparison cannot: bytes that come from the STACK, e.g. a local the core no longer clears
+    before a getter that may fail)"""
+    import random
+    with V.Lock(): exe = V.build_harness_msan()
+    if not exe: return {'msan': 'the MemorySanitizer build (clang) of the harness failed; skipped'}
+    text = ''.join(t for t, _ in scenarios(random.Random(seed * 1000003 + 17), tier))
+    hits = V.run_msan(text, 'C02')
+    fails = []
+    scn = {}
+    cur = None
+    for l in text.split('\n'):
+        if l.startswith('scenario'): cur = l.split()[1]; scn[cur] = []
+        elif cur and l.strip(): scn[cur].append(l)
+    for name, i, op, what in hits[:3]:
+        fails.append('under MemorySanitizer the responder stops at operation %d of scenario %s ("%s"): a byte it never wrote since obtaining the memory (heap or stack) reaches a '
+                     'transmitted frame or decides a branch\nscenario %s\n%s' % (i, name, op[:120], name, '\n'.join(scn.get(name.split('~')[0] if name not in scn else name, [])[:i + 1])))
+    return {'failures': fails, 'msan_scenarios': len(scn), 'msan_stops': len(hits)}
